@@ -11,6 +11,8 @@ import (
 	"testing"
 
 	"github.com/massnetorg/mass-core/poc/pocutil"
+	"github.com/massnetorg/mass-core/pocec"
+	"massnet.org/mass/poc/engine/massdb"
 
 	"pgregory.net/rapid"
 	"verif/vlib"
@@ -29,7 +31,7 @@ var vfStopPoints = []string{"A.iter", "A.window", "A.dataSynced", "A.ckptSynced"
 func vfJudgeInterrupted(dir string, ordinal int64, c *vfC10Case, ref *vfRef, where string) (done bool, f *vlib.Failure) {
 	pub := vfPub(c.Scalar)
 	pkHash := pocutil.PubKeyHash(pub)
-	dbi, err := OpenDB(dir, ordinal, pub, c.BL)
+	dbi, err := vfOpenLikeKeeper(dir, ordinal, pub, c.BL)
 	if err != nil {
 		return false, vlib.Failf("interrupted:does-not-open", "%s: OpenDB: %v", where, err)
 	}
@@ -92,6 +94,16 @@ func vfJudgeInterrupted(dir string, ordinal int64, c *vfC10Case, ref *vfRef, whe
 		}
 	}
 	return false, nil
+}
+
+// vfOpenLikeKeeper opens a space the way the keeper's NewWorkSpace does: OpenDB, and CreateDB when a file does not
+// exist (CreateDB keeps existing files and creates the missing ones).
+func vfOpenLikeKeeper(dir string, ordinal int64, pub *pocec.PublicKey, bl int) (massdb.MassDB, error) {
+	dbi, err := OpenDB(dir, ordinal, pub, bl)
+	if err == massdb.ErrDBDoesNotExist {
+		return CreateDB(dir, ordinal, pub, bl)
+	}
+	return dbi, err
 }
 
 func vfC10Run(c vfC10Case, ctx *vlib.Ctx) *vlib.Failure {
